@@ -817,8 +817,54 @@ def r8_local_ranges_cover_ids(ctx):
         ctx.bad("locals-range|unrecognised|%s" % writes[0][1][:30], f.where(writes[0][0]), "cannot see that the local range covers the allocated id: `%s`" % writes[0][1])
 
 
+def r5b_renderer_indexes_stay_inside(ctx):
+    """Every checked index in diagnostics.rs (`haystack[i]`) follows from a dominating `i < len`; a position returned by
+    memchr2 is in bounds once it has been compared unequal to the length (the search returns the length for "not found",
+    otherwise an index below it).  `i <= len` in the place of `i < len` lets the one-past-the-end position through and the
+    renderer panics while it prepares a diagnostic."""
+    from .c13 import holds_lt, const_index_ok, len_alias
+    n = 0
+    for fn in sorted(ctx.lib.in_file("src/diagnostics.rs"), key=lambda f: (f.line, f.id)):
+        for b in sorted(fn.live):
+            t = fn.blocks[b]["t"]
+            if t["k"] != "assert" or t.get("kind") != "BoundsCheck":
+                continue
+            n += 1
+            ctx.touch(fn)
+            ln = ne(fn.expr(t["ops"][0], 6))
+            ix = ne(fn.expr(t["ops"][1], 6))
+            arr = sh(ln).replace("len(", "").rstrip(")")
+            text = "%s[%s]" % (arr, sh(ix))
+            facts = cmp_facts(fn, b)
+            bounds = [ln] + [("var", v) for v in ("len", "n") if len_alias(fn, v, arr)]
+            verdict = "none"
+            if ix[0] == "const" and isinstance(ix[1], int):
+                if any(const_index_ok(facts, ix[1], sh(bd)) for bd in bounds):
+                    verdict = "ok"
+            else:
+                for bd in bounds:
+                    v = holds_lt(facts, ix, bd)
+                    if v == "ok":
+                        verdict = "ok"
+                    elif v == "offbyone" and verdict != "ok":
+                        verdict = "offbyone"
+                if verdict != "ok" and "memchr" in sh(ne(fn.deep(t["ops"][1]))):
+                    # a search result: in bounds once it differs from the length
+                    for op, a, bb, S in facts:
+                        if {sh(a), sh(bb)} & {sh(ix)} and {sh(a), sh(bb)} & {sh(bd) for bd in bounds} and op in ("Ne", "Lt"):
+                            verdict = "ok"
+            key = "renderer-index|%s|%s" % (parent_fn(fn.id).split("::")[-1], text)
+            if verdict == "ok":
+                ctx.ok(key, fn.where(b), "index < length follows from the dominating tests")
+            elif verdict == "offbyone":
+                ctx.bad(key + "|offbyone", fn.where(b), "`%s` is guarded by `index <= len` where `index < len` is needed: for a text that ends exactly there the renderer reads one past the end and panics while preparing a diagnostic (no diagnostic is printed; an accepted program with a warning never runs)" % text)
+            else:
+                ctx.bad(key + "|unguarded", fn.where(b), "`%s` has no dominating test that implies index < len (%s)" % (text, [(o, sh(a)[:20], sh(bb)[:15]) for o, a, bb, S in facts][:5]))
+    ctx.floor("checked indexes in the diagnostics renderer", n, 2)
+
+
 RULES = [("C07-R1", r1_cursor_discipline), ("C07-R2", r2_unchecked_reslicing), ("C07-R2b", r2b_byte_reads_in_bounds), ("C07-R2c", r2c_template_reads_in_bounds), ("C07-R5", r5_renderer_boundaries),
-         ("C07-R3", r3_parser_position_free), ("C07-R3b", r3b_parser_spans_are_ordered), ("C07-R4", r4_recovery_progress), ("C07-R8", r8_local_ranges_cover_ids), ("C07-R9", r9_bitset_indexes_agree)]
+         ("C07-R3", r3_parser_position_free), ("C07-R3b", r3b_parser_spans_are_ordered), ("C07-R4", r4_recovery_progress), ("C07-R8", r8_local_ranges_cover_ids), ("C07-R9", r9_bitset_indexes_agree), ("C07-R5b", r5b_renderer_indexes_stay_inside)]
 
 EXPLANATION = (
     "R1 cursor discipline: every write to Lexer.pos is classified by the shape of its right-hand side and must carry its "
